@@ -36,6 +36,8 @@ func init() {
 	mon.RegComb(&mon.Comb{Name: "join-slice-of-recvchan", JoinSliceR: func(in []<-chan int) <-chan int { return deriveJoinS(in) }})
 	mon.RegComb(&mon.Comb{Name: "join-variadic-2", JoinVar2: func(a, b chan int) <-chan int { return deriveJoinV2(a, b) }})
 	mon.RegComb(&mon.Comb{Name: "join-variadic-3", JoinVar3: func(a, b, c chan int) <-chan int { return deriveJoinV3(a, b, c) }})
+	mon.RegComb(&mon.Comb{Name: "join-variadic-5", NVar: 5, JoinVarN: func(c []chan int) <-chan int { return deriveJoinV5(c[0], c[1], c[2], c[3], c[4]) }})
+	mon.RegComb(&mon.Comb{Name: "join-variadic-6", NVar: 6, JoinVarN: func(c []chan int) <-chan int { return deriveJoinV6(c[0], c[1], c[2], c[3], c[4], c[5]) }})
 	mon.RegComb(&mon.Comb{Name: "pipeline", Pipeline: func(f func(int) <-chan int, g func(int) <-chan int) func(int) <-chan int { return derivePipeline(f, g) }})
 	mon.RegComb(&mon.Comb{Name: "dup-recvchan", Dup: func(in <-chan int) (<-chan int, <-chan int) { return deriveDup(in) }})
 }
@@ -79,6 +81,7 @@ type concBuild struct {
 	name  string
 	race  bool
 	yield bool
+	gover string // go directive of the scratch module ("" = 1.24): 1.21 has per-loop (shared) loop variables
 }
 
 type concResult struct {
@@ -96,6 +99,14 @@ func (c *Ctx) runConc(files map[string]string, b concBuild, env []string) concRe
 	res := concResult{build: b}
 	dir := c.Env.Dir(strings.ToLower(c.Prop) + "-" + b.name)
 	res.dir = dir
+	if b.gover != "" {
+		f2 := map[string]string{}
+		for k, v := range files {
+			f2[k] = v
+		}
+		f2["go.mod"] = "module scratch\n\ngo " + b.gover + "\n"
+		files = f2
+	}
 	grun.WriteTree(dir, files)
 	WriteMon(dir)
 	var pkgs []string
@@ -432,9 +443,20 @@ func checkC19(c *Ctx) {
 	c.Run.Assume = []string{"'under every interleaving' is sampled: held on the executions and interleaving signatures reported, not on all schedules", "wall-clock watchdogs only trigger a goroutine-dump decision; runnable goroutines make the case inconclusive"}
 	c.Run.Floor = 30
 	files := map[string]string{"go.mod": pgen.GoMod, "pa/pa.go": chanPkgA, "pb/pb.go": chanPkgB, "cmd/h/main.go": concMain}
-	builds := []concBuild{{"race", true, false}, {"yield", false, true}}
+	// the third build compiles the same emitted code in a module that says `go 1.21`: loop variables are
+	// shared between iterations there, so a goroutine capturing one without a copy misbehaves
+	builds := []concBuild{{"race", true, false, ""}, {"yield", false, true, ""}, {"race-go1.21", true, false, "1.21"}}
 	results := make([]concResult, len(builds))
-	parallel(len(builds), 2, func(i int) { results[i] = c.runConc(files, builds[i], nil) })
+	parallel(len(builds), 3, func(i int) {
+		var env []string
+		if builds[i].gover != "" {
+			env = []string{"VERIF_SCEN=24", "VERIF_REPS=10"}
+			if !c.Quick {
+				env = []string{"VERIF_SCEN=80", "VERIF_REPS=30"}
+			}
+		}
+		results[i] = c.runConc(files, builds[i], env)
+	})
 	for _, r := range results {
 		c.judgeConc(r)
 		c.porcupineOver(r)
@@ -450,7 +472,7 @@ func checkC20(c *Ctx) {
 	c.Run.Assume = []string{"schedules are sampled; the completion-order dimension is exhaustive for n<=4"}
 	c.Run.Floor = 30
 	files := map[string]string{"go.mod": pgen.GoMod, "pa/pa.go": doPkg, "cmd/h/main.go": strings.Replace(concMain, "\t_ \"scratch/pb\"\n", "", 1)}
-	builds := []concBuild{{"race", true, false}, {"yield", false, true}}
+	builds := []concBuild{{"race", true, false, ""}, {"yield", false, true, ""}}
 	results := make([]concResult, len(builds))
 	parallel(len(builds), 2, func(i int) { results[i] = c.runConc(files, builds[i], nil) })
 	for _, r := range results {
